@@ -69,7 +69,7 @@ func GenExpr(t *rapid.T, st ExprStyle, label string) Expr {
 }
 
 // (the last one: an encoded percent sign in front of two hex digits - the text "a%41", not "aA")
-var fillSegs = []string{"a", "b", "ab", "abc", "a:b", "a*", ":a", "*a", "b:", "x", "zz", "abcd", ":", "*", "**", ":*", "a%2541"}
+var fillSegs = []string{"a", "b", "ab", "abc", "a:b", "a*", ":a", "*a", "b:", "x", "zz", "abcd", ":", "*", "**", ":*", "a%2541", "a%2541", "a%2541"}
 
 // FillWithEncodedSlashes adds values holding an encoded slash (one segment, not two) to what wildcards are filled with. Only
 // for checks whose rules let encoded slashes pass.
